@@ -186,7 +186,42 @@ def run_binary_more(ctx):
             ctx.fail("skip-rest", "%s: after the skip(s) the stream continues with %s, after the matching close the lexer reads %s" %
                      (who, " ".join(got[:5]), " ".join(exp[:5])), [cases[j], tc[k]], [impl[base + j][:600]], " ".join(exp[:60]))
     ctx.count("skip_rest_cases", len(cases))
+    run_long_strings(ctx)
 # <<< a_c09
+
+
+def run_long_strings(ctx):
+    """strings at the u16 length boundary inside a skipped container (prefix + payload = 65535..65537 bytes), filled with words
+    that read as lexemes at either alignment: a skip that mis-sizes the payload by any amount lands on a "token".  Release and
+    debug builds (overflow checks); implementation only (the extracted model is quadratic in the length), the expectation is
+    the generator's own token list."""
+    rng = ctx.rng
+    cases, meta = [], []
+    for L in (255, 256, 65533, 65534, 65535):
+        for kind in ("Q", "U"):
+            for fill in (b"\x00\x04\x00", b"\x04\x00", b"\x03\x00\x04\x00\x04"):
+                pay = (fill * (L // len(fill) + 1))[:L]
+                toks = [("T", 0x2d28), ("EQ",), ("O",), ("I32", 1), (kind, pay), ("I32", 5), ("C",), ("T", 9), ("Q", b"ab")]
+                d = b"".join(B.enc(t) for t in toks)
+                after = sum(len(B.enc(t)) for t in toks[:7])
+                h = hexs(d)
+                cases.append("bl.lops\t%s\t%s" % (h, "t,t,t,svo,T")); meta.append((L, kind, after, "lexer"))
+                cases.append("bl.rsops\t%s\t%s" % (h, "n,n,n,k,T")); meta.append((L, kind, after, "slice reader"))
+                cases.append("bl.rops\t%s\t%d\t%s\t%s" % (h, 65600, rng.choice(["-", "4096,1,4095", "65536,3,1"]), "n,n,n,k,T")); meta.append((L, kind, after, "reader"))
+    want = [B.txt(("T", 9)), B.txt(("Q", b"ab"))]
+    for prof in ("release", "debug"):
+        impl, _ = ctx.correspond("skip_long_strings_" + prof, cases, nontrivial=lambda c, i: "OK@" in i, profile=prof, model=False)
+        base = len(impl) - len(cases)
+        for j, (L, kind, after, who) in enumerate(meta):
+            o = impl[base + j]
+            out = o.split(" ")
+            toks_after = [x.rsplit("@", 1)[0] for x in out if x.rsplit("@", 1)[0] in want]
+            okpos = any(x == "OK@%d" % after for x in out)
+            if o in ("PANIC", "ABORT", "HANG") or o.startswith("PANIC"):
+                ctx.fail("skip-long-crash", "%s build, %s: skipping a container that holds a %d-byte %s string: %s" % (prof, who, L, kind, o[:60]), [cases[j][:300]], [o[:200]], "position %d then %s" % (after, " ".join(want)))
+            elif not okpos or toks_after != want:
+                ctx.fail("skip-long-string", "%s build, %s: after skipping a container that holds a %d-byte %s string the stream continues with %s; the matching close ends at %d and is followed by %s" % (prof, who, L, kind, " ".join(out[-4:])[:160], after, " ".join(want)), [cases[j][:300]], [o[-300:]], "OK@%d %s" % (after, " ".join(want)))
+    ctx.count("skip_long_string_cases", len(cases))
 
 
 def run(ctx):
